@@ -7,7 +7,8 @@ PATCH="$(readlink -f "$1")"; IDS="$2"; TIER="${3:-quick}"
 cd "$(dirname "$0")/.."
 WT="/tmp/try-seeded-$$"
 git -C /repo worktree add --detach "$WT" >/dev/null 2>&1 || { echo "cannot create worktree"; exit 2; }
-trap 'git -C /repo worktree remove --force "$WT" >/dev/null 2>&1' EXIT
+export VERIF_BUILD_TAG="try$$"
+trap 'git -C /repo worktree remove --force "$WT" >/dev/null 2>&1; rm -rf .build/*.try'$$' .build/results/*try'$$ EXIT
 ( cd "$WT" && git apply "$PATCH" ) || { echo "PATCH-DOES-NOT-APPLY"; exit 2; }
 ( cd "$WT" && GOFLAGS=-mod=mod GOPROXY=off go build ./... ) || { echo "PATCH-DOES-NOT-BUILD"; exit 2; }
 rc=0
